@@ -411,14 +411,9 @@ func (s *Server) Get(req *spb.GetRequest, stream spb.GRIBI_GetServer) error {
 	// defer a function to stop the goroutine and close all channels, since this will be called
 	// when we exit, then it will stop the goroutine that we started to do
 	// the get in the case that we exit due to some error.
-	defer func() {
-		// Non-blocking write to the stopCh, since if the goroutine has
-		// already returned then it won't be listening and we'll deadlock.
-		select {
-		case stopCh <- struct{}{}:
-		default:
-		}
-	}()
+	// Closing stopCh means that the goroutine observes that it must stop whenever it next
+	// looks, including when it is blocked writing a message that will never be read.
+	defer close(stopCh)
 
 	go s.doGet(req, msgCh, doneCh, stopCh, errCh)
 
@@ -1059,13 +1054,25 @@ func checkElectionForModify(opID uint64, opElecID *spb.Uint128, election *electi
 // is received on stopCh the function returns. Any errors that are experienced are written to
 // errCh.
 func (s *Server) doGet(req *spb.GetRequest, msgCh chan *spb.GetResponse, doneCh, stopCh chan struct{}, errCh chan error) {
-	// Any time we return we return we tell the done channel that we're complete.
+	// Any time we return we return we tell the done channel that we're complete, unless
+	// the caller has already gone away.
 	defer func() {
-		doneCh <- struct{}{}
+		select {
+		case doneCh <- struct{}{}:
+		case <-stopCh:
+		}
 	}()
 
+	// sendErr reports an error to the caller, unless it has already gone away.
+	sendErr := func(err error) {
+		select {
+		case errCh <- err:
+		case <-stopCh:
+		}
+	}
+
 	if req == nil {
-		errCh <- status.Errorf(codes.InvalidArgument, "invalid nil GetRequest received")
+		sendErr(status.Errorf(codes.InvalidArgument, "invalid nil GetRequest received"))
 		return
 	}
 
@@ -1073,7 +1080,7 @@ func (s *Server) doGet(req *spb.GetRequest, msgCh chan *spb.GetResponse, doneCh,
 	switch nireq := req.NetworkInstance.(type) {
 	case *spb.GetRequest_Name:
 		if nireq.Name == "" {
-			errCh <- status.Errorf(codes.InvalidArgument, `invalid string "" returned for NetworkInstance name in GetRequest`)
+			sendErr(status.Errorf(codes.InvalidArgument, `invalid string "" returned for NetworkInstance name in GetRequest`))
 			return
 		}
 		netInstances = append(netInstances, nireq.Name)
@@ -1086,18 +1093,19 @@ func (s *Server) doGet(req *spb.GetRequest, msgCh chan *spb.GetResponse, doneCh,
 	case spb.AFTType_ALL, spb.AFTType_IPV4, spb.AFTType_NEXTHOP, spb.AFTType_NEXTHOP_GROUP, spb.AFTType_MPLS, spb.AFTType_IPV6:
 		filter[v] = true
 	default:
-		errCh <- status.Errorf(codes.Unimplemented, "AFTs other than IPv4, MPLS, IPv6, NHG and NH are unimplemented, requested: %s", v)
+		sendErr(status.Errorf(codes.Unimplemented, "AFTs other than IPv4, MPLS, IPv6, NHG and NH are unimplemented, requested: %s", v))
+		return
 	}
 
 	for _, ni := range netInstances {
 		netInst, ok := s.masterRIB.NetworkInstanceRIB(ni)
 		if !ok {
-			errCh <- status.Errorf(codes.InvalidArgument, "invalid network instance %s specified", ni)
+			sendErr(status.Errorf(codes.InvalidArgument, "invalid network instance %s specified", ni))
 			return
 		}
 
 		if err := netInst.GetRIB(filter, msgCh, stopCh); err != nil {
-			errCh <- err
+			sendErr(err)
 			return
 		}
 	}
